@@ -271,9 +271,11 @@ func cmdCheck(args []string) int {
 		if res.Err != "" {
 			fmt.Fprintf(os.Stderr, "UNDECIDED %s: %s: %s\n", id, sp.Key, res.Err)
 			nUndecided++
-			if strings.HasPrefix(res.Err, "spec error") {
-				broken = true
-			}
+			// the contract no longer fits the function (a spec error, or the
+			// generator could not evaluate it - e.g. a loop invariant that now
+			// lands on a different loop): none of its obligations is decided,
+			// the check cannot vouch for the property on this tree
+			broken = true
 			continue
 		}
 		c := res.Ctx
